@@ -156,8 +156,9 @@ Weak(d) == HasX(d.body) \/ \E i \in 1..Len(d.body) : d.body[i].c = "H" /\ d.body
 EncField(f, min, ver) ==
   LET n == Bytes(f.data) IN
   IF f.kind = "rreq" THEN
-       IF n % 4 # 0 THEN <<Run("PANIC", 0)>>
-       ELSE <<H(f.ty, n + 4)>> \o Take(f.data, 2) \o <<Run("Z", 2), Run("Z", n - 4)>>
+       \* (as repaired by the fix for finding F-5: offset, zero fill to the decoded payload length, word padding;
+       \*  before the fix serialize asserted n % 4 = 0)
+       <<H(f.ty, n + 4)>> \o Take(f.data, 2) \o <<Run("Z", n - 2), Run("Z", Pad4(n + 4) - n - 4)>>
   ELSE IF f.kind = "rresp" THEN <<H(f.ty, n + 4)>> \o f.data \o <<Run("Z", Pad4(n + 4) - n - 4)>>
   ELSE LET unp  == Max(n + 4, min)
            decl == IF ver = 4 THEN Pad4(unp) ELSE unp
@@ -197,7 +198,7 @@ RoundTrip(d) ==   \* "n/a" (not accepted) | "ok" | "encode" | "redecode" | "unst
             ELSE LET e2 == Encode(r1.p) IN
                  IF e2.res # "ok" \/ e2.d # e1.d THEN "unstable"
                  ELSE IF Decode(e2.d) # r1 THEN "unstable" ELSE "ok"
-C24_Case(d) == (~Weak(d) /\ Decode(d).res = "ok" /\ ~F5Class(Decode(d).p)) => RoundTrip(d) = "ok"
+C24_Case(d) == (~Weak(d) /\ Decode(d).res = "ok") => RoundTrip(d) = "ok"
 
 (***************************************************************************)
 (* C25: regions of a sealed datagram                                       *)
